@@ -16,14 +16,18 @@ RULE = ("pairs of maze objects of all three kinds (identical object, equal copie
         "metadata-only difference) on shapes 1x1..8x8 incl. oblong: ==/!= must not raise and must equal reference equality "
         "(same class and np.array_equal on connection_list/start/end/solution, metadata ignored); hash() must not raise and agree "
         "on equal mazes; set()/dict.fromkeys de-duplicate to the number of reference-distinct mazes; MazeDataset == ; "
-        "constructors with endpoint coordinates from {-3..n+2}^2 must raise ValueError iff a coordinate is outside the grid. "
+        "the same on 23..40-cell-a-side grids with differences far from the array corners / solution ends (mazes and datasets, "
+        "also same mazes in another order, metadata-only and dtype-only differences); mazes built - and for half of them already used as "
+        "set members - in another interpreter with another PYTHONHASHSEED, pickled and loaded here must equal, hash like and de-duplicate "
+        "with the same mazes built here; constructors with endpoint coordinates from {-3..n+2}^2 must raise ValueError iff a coordinate is outside the grid. "
         "non-trivial & distinct = distinct (pair class, kind, data) pairs of two different objects")
 ASSUMPTIONS = ["reference equality is the statement's: same kind, identical connection structure, start, end and solution"]
 NSHARDS = {"quick": 16, "thorough": 16}
 _PAIR = ["identical", "copy", "copy-dtype", "bitflip", "endpoint", "solcell", "sollen", "shape", "kind", "meta"]
 THRESHOLDS = {"quick": {**{f"c09:pair:{p}": 50 for p in _PAIR}, "c09:hash:LatticeMaze": 100, "c09:hash:TargetedLatticeMaze": 100,
                         "c09:hash:SolvedMaze": 100, "c09:set-dedup": 100, "c09:dataset-eq": 30, "c09:ctor:in-range": 300,
-                        "c09:ctor:negative": 300, "c09:ctor:too-large": 300, "c09:ctor:solved": 200}}
+                        "c09:ctor:negative": 300, "c09:ctor:too-large": 300, "c09:ctor:solved": 200, "c09:big-pairs": 40, "c09:dataset-eq-big": 40,
+                        "c09:travelled:hashed-first": 10, "c09:travelled:never-hashed": 10}}
 THRESHOLDS["thorough"] = dict(THRESHOLDS["quick"])
 ANCHORS = ["maze_dataset.maze.lattice_maze:TargetedLatticeMaze.__post_init__",
            "maze_dataset.maze.lattice_maze:LatticeMaze.__hash__",
@@ -202,6 +206,8 @@ def run(ctx):
             ctx.sample(dict(pair_class=pc, kind=kind, kind2=kind2, shape=d["cl"].shape[1:], expected_equal=exp))
     _dedup(ctx, 200 if ctx.quick else 4000)
     _datasets(ctx, 60 if ctx.quick else 1000)
+    _big(ctx, 48 if ctx.quick else 800)
+    _travel(ctx, 24 if ctx.quick else 200)
     _ctors(ctx, 2400 if ctx.quick else 48000)
 
 
@@ -281,6 +287,137 @@ def _datasets(ctx, n):
             ctx.violation(f"C09/dataset-eq-raises/{type(e).__name__}", f"{variant}: {type(e).__name__}: {str(e)[:200]}", case)
             continue
         ctx.check(bool(r) == exp, "C09/dataset-eq-wrong", f"{variant}: got {r} expected {exp}", case)
+
+
+def _big_data(rng, n):
+    fam = ["tree", "cyc3", "perc8", "serpentine", "full"][int(rng.integers(5))]
+    _, cl = ref.random_structure(n, n, rng, fam)
+    g = Graph(cl)
+    if fam == "serpentine":
+        s, e = (0, 0), (n - 1, (n - 1) if n % 2 else 0)
+    else:
+        cells = ref.all_cells(n, n)
+        s = cells[int(rng.integers(len(cells)))]
+        comp = sorted(g.component_of(s))
+        e = comp[int(rng.integers(len(comp)))]
+    return dict(cl=cl, s=s, e=e, path=g.shortest_path(s, e, rng))
+
+
+def _big(ctx, n):
+    """mazes and datasets on large grids (24..40 a side): differences far from the array corners / solution ends"""
+    from maze_dataset import MazeDataset, MazeDatasetConfig
+    import warnings
+
+    for i in range(n):
+        if not ctx.mine(i):
+            continue
+        rng = ctx.sub_rng("big", i)
+        g_n = [24, 30, 40, 23][i % 4]
+        d = _big_data(rng, g_n)
+        variant = ["interior-bit", "interior-solution-cell", "same", "corner-bit", "meta-only", "dtype-only"][i % 6]
+        d2 = dict(cl=d["cl"].copy(), s=d["s"], e=d["e"], path=list(d["path"]))
+        if variant == "interior-bit":
+            r, c = int(rng.integers(5, g_n - 6)), int(rng.integers(5, g_n - 6))
+            dd = int(rng.integers(2))
+            d2["cl"][dd, r, c] = not d2["cl"][dd, r, c]
+        elif variant == "corner-bit":
+            d2["cl"][0, 0, 0] = not d2["cl"][0, 0, 0]
+        elif variant == "interior-solution-cell":
+            if len(d["path"]) < 9:
+                continue
+            k = len(d["path"]) // 2
+            cells = [c for c in ref.all_cells(g_n, g_n) if c != d["path"][k]]
+            d2["path"][k] = cells[int(rng.integers(len(cells)))]
+        exp = variant in ("same", "meta-only", "dtype-only")
+        case = dict(kind="big", variant=variant, grid_n=g_n, solution_len=len(d["path"]))
+        try:
+            a = _make("SolvedMaze", d, meta=dict(func_name="x") if variant == "meta-only" else None)
+            b = _make("SolvedMaze", d2, meta=dict(func_name="y", extra=1) if variant == "meta-only" else None, dtype=np.int8 if variant == "dtype-only" else None)
+        except Exception as e:  # noqa: BLE001
+            ctx.violation(f"C09/construct/exception/{type(e).__name__}", repr(e)[:400], case)
+            continue
+        ctx.tally("c09:big-pairs"); ctx.tally(f"c09:big:{variant}")
+        ctx.nontrivial("big", variant, d["cl"], d2["cl"], d["path"], d2["path"])
+        _eq_ops(ctx, a, b, exp, case)
+        ha, hb = _hash(ctx, a, case), _hash(ctx, b, case)
+        if exp and ha is not None and hb is not None:
+            ctx.check(ha == hb, "C09/equal-mazes-different-hash", f"{ha} != {hb}", case)
+        try:
+            ns = len({a, b})
+            ctx.check(ns == (1 if exp else 2), "C09/set-dedup-wrong-count", f"len(set)={ns}, mazes are {'equal' if exp else 'different'} ({variant})", case)
+        except Exception as e:  # noqa: BLE001
+            ctx.violation(f"C09/set-dedup-raises/SolvedMaze/{type(e).__name__}", str(e)[:200], case)
+        # datasets holding these mazes (plus a common second maze)
+        try:
+            with warnings.catch_warnings():
+                warnings.simplefilter("ignore")
+                common = _big_data(rng, g_n)
+                A = MazeDataset(MazeDatasetConfig(name="big", grid_n=g_n, n_mazes=2), [_make("SolvedMaze", common), a])
+                B = MazeDataset(MazeDatasetConfig(name="big", grid_n=g_n, n_mazes=2), [_make("SolvedMaze", common), b])
+                r = (A == B)
+                ctx.ev(); ctx.tally("c09:dataset-eq"); ctx.tally("c09:dataset-eq-big")
+                ctx.check(bool(r) == exp, "C09/dataset-eq-wrong", f"large grid {g_n}, {variant}: got {r} expected {exp}", case)
+                if i % 2 == 0:
+                    Cc = MazeDataset(MazeDatasetConfig(name="big", grid_n=g_n, n_mazes=2), [a, _make("SolvedMaze", common)])
+                    same_order = _ref_eq("SolvedMaze", d, "SolvedMaze", common)
+                    ctx.check(bool(A == Cc) == same_order, "C09/dataset-eq-wrong", f"large grid {g_n}: same mazes in another order compare {A == Cc}", case)
+        except Exception as e:  # noqa: BLE001
+            ctx.violation(f"C09/dataset-eq-raises/{type(e).__name__}", f"{variant}: {str(e)[:200]}", case)
+
+
+def _travel(ctx, n):
+    """mazes built (and possibly already hashed) in another interpreter process with another string-hash seed, pickled, and
+    loaded here: they must equal, hash like and de-duplicate with the same mazes built here"""
+    import json
+    import os
+    import pickle
+    import subprocess
+
+    from ..core import VERIF_ROOT
+    from ..runner import PY, shard_env
+
+    mine = [i for i in range(n) if ctx.mine(i)]
+    if not mine:
+        return
+    specs, datas = [], []
+    for i in mine:
+        rng = ctx.sub_rng("travel", i)
+        d = _data(rng) if i % 3 else _big_data(rng, 12)
+        kind = KINDS[i % 3]
+        datas.append((kind, d))
+        specs.append(dict(kind=kind, cl=np.asarray(d["cl"]).astype(int).tolist(), s=list(d["s"]), e=list(d["e"]), path=[list(p) for p in d["path"]],
+                          hash_first=bool(i % 2 == 0)))
+    for hs in (101, 202):
+        out = os.path.join(ctx.work, f"c09-travel-{hs}.pkl")
+        p = subprocess.run([PY, "-m", "vmon.c09_child", out], input=json.dumps(specs), capture_output=True, text=True,
+                           env=shard_env(dict(PYTHONHASHSEED=str(hs))), cwd=VERIF_ROOT, timeout=900)
+        if p.returncode != 0 or "PICKLED" not in p.stdout:
+            ctx.tally("c09:travel-child-failed(not judged)")
+            ctx.note(f"c09 child failed (pickling a maze is not part of the statement): {p.stderr[-300:]}")
+            continue
+        try:
+            with open(out, "rb") as f:
+                loaded = pickle.load(f)
+        except Exception as e:  # noqa: BLE001
+            ctx.tally("c09:travel-unpickle-failed(not judged)")
+            ctx.note(f"unpickle failed: {e!r}"[:200])
+            continue
+        finally:
+            if os.path.exists(out):
+                os.unlink(out)
+        for (kind, d), sp, m in zip(datas, specs, loaded):
+            case = dict(kind=kind, hashed_before_pickling=sp["hash_first"], child_hashseed=hs, shape=list(np.asarray(d["cl"]).shape[1:]))
+            fresh = _make(kind, d)
+            ctx.tally("c09:travelled"); ctx.tally("c09:travelled:hashed-first" if sp["hash_first"] else "c09:travelled:never-hashed")
+            _eq_ops(ctx, m, fresh, True, case)
+            hm, hf = _hash(ctx, m, case), _hash(ctx, fresh, case)
+            if hm is not None and hf is not None:
+                ctx.check(hm == hf, "C09/equal-mazes-different-hash", f"a maze unpickled from another process hashes {hm}, the equal maze built here {hf}", case)
+            try:
+                ctx.check(len({m, fresh}) == 1 and len(dict.fromkeys([fresh, m])) == 1, "C09/set-dedup-wrong-count",
+                          "an unpickled maze and the equal maze built here do not de-duplicate", case)
+            except Exception as e:  # noqa: BLE001
+                ctx.violation(f"C09/set-dedup-raises/{kind}/{type(e).__name__}", str(e)[:200], case)
 
 
 def _ctors(ctx, n):
